@@ -1176,3 +1176,27 @@ def guards_between(loop: ast.For, target: ast.AST) -> T.List[ast.AST]:
         return False
     rec(loop.body, [])
     return out
+
+
+def record_labels(prog: Program, fn: FunctionInfo, eng: str) -> T.List[T.Tuple[ast.Call, str]]:
+    """How `fn` labels the rewritten records with a path: `<record>._replace(path=E)`, or the `path` argument of
+    <eng>.rfd_from_content(...) when that function hands its `path` parameter to the record.  (call, text of E) each."""
+    out: T.List[T.Tuple[ast.Call, str]] = []
+    rfc = prog.function(f"{eng}.rfd_from_content") if prog.has_function(f"{eng}.rfd_from_content") else None
+    passes_on = False
+    if rfc is not None and "path" in rfc.all_params:
+        ctor = [c for c in ast.walk(rfc.node) if isinstance(c, ast.Call) and unparse(c.func).endswith("RewrittenFileData")]
+        if len(ctor) == 1:
+            first = ctor[0].args[0] if ctor[0].args else kwargs_of(ctor[0]).get("path")
+            stores = [n for n in ast.walk(rfc.node) if isinstance(n, ast.Name) and n.id == "path" and isinstance(n.ctx, ast.Store)]
+            passes_on = first is not None and unparse(first) == "path" and not stores
+    for c in ast.walk(fn.node):
+        if not isinstance(c, ast.Call):
+            continue
+        if isinstance(c.func, ast.Attribute) and c.func.attr == "_replace" and "path" in kwargs_of(c):
+            out.append((c, unparse(kwargs_of(c)["path"])))
+        elif passes_on and unparse(c.func) in ("rfd_from_content", f"{eng}.rfd_from_content"):
+            a = call_arg(c, rfc, "path")
+            if a is not None:
+                out.append((c, unparse(a)))
+    return out
